@@ -27,6 +27,10 @@ import (
 type c19Case struct {
 	FS string `json:"fs"` // ext4 fat12 fat16 fat32 squashfs iso-rr
 	N  int    `json:"n"`
+	// Farm (squashfs): hundreds of symlinks with targets of 40..239 bytes (inodes of every size across the
+	// metadata-block boundaries of the inode table) and thousands of files with pairwise different owners and
+	// groups (an id table longer than one metadata block)
+	Farm bool `json:"farm,omitempty"`
 }
 
 type c19Attr struct {
@@ -605,6 +609,21 @@ func c19Workspace(res *core.Result, r gen.R, p c19Case, env *core.Env, fail func
 	for i, tgt := range symTargets(r, maxLink) {
 		t = append(t, TNode{Path: fmt.Sprintf("link%02d", i), Link: tgt})
 	}
+	if p.Farm && format == "squashfs" {
+		t = append(t, TNode{Path: "links", Dir: true}, TNode{Path: "owners", Dir: true})
+		for i := 0; i < 400; i++ {
+			l := 40 + r.Intn(200)
+			tgt := strings.Repeat("p/", l/2)[:l-4] + fmt.Sprintf("%04d", i)
+			if i%2 == 0 {
+				tgt = "/" + tgt[1:]
+			}
+			t = append(t, TNode{Path: fmt.Sprintf("links/l%04d", i), Link: tgt})
+		}
+		for i := 0; i < 1300; i++ {
+			t = append(t, TNode{Path: fmt.Sprintf("owners/o%04d", i), Size: 0, Mode: 0o640, UID: 70000 + 3*i, GID: 200000 + 7*i, MTime: times[i%len(times)]})
+		}
+		res.Mark("squashfs symlink and owner farm")
+	}
 	os.Chdir(env.Scratch)
 	st := monstore.NewMem(64 << 20)
 	var err error
@@ -711,10 +730,10 @@ func init() {
 	core.Register(&core.Check{
 		ID:          "C19",
 		Level:       "exploration",
-		Rule:        "ext4: files, directories and symlinks (targets 1,2,59,60,61,100,255,1000 bytes, relative and absolute) receive seeded sequences of Chmod (all 12 bits incl. setuid/setgid/sticky), Chown (ids 0..2^32-1), Chtimes (creation, access and modification time, 1901..2446) interleaved with content writes through fresh handles and through handles that were opened before later attribute changes (growing the file and overwriting inside it); every path is re-verified live, after ext4.Read of the image, and against `debugfs stat` as a second opinion. FAT12/16/32: Chtimes (1980..2107, odd seconds) and SetHidden/SetSystem/SetReadOnly/SetArchiveBit interleaved with content writes, verified live and after re-open. squashfs and Rock Ridge ISO: workspace files with modes over all 12 bits, owners over the 16/32-bit range, mtimes across each format's range and symlink targets up to 4095 (ISO: 1000) bytes are finalized and every path is verified through Stat/Sys/Readlink on the re-opened image: attributes unchanged, changing one attribute changes nothing else, kinds never confused. Non-trivial = a case whose attributes were verified; distinct = distinct attribute assignment",
+		Rule:        "ext4: files, directories and symlinks (targets 1,2,59,60,61,100,255,1000 bytes, relative and absolute) receive seeded sequences of Chmod (all 12 bits incl. setuid/setgid/sticky), Chown (ids 0..2^32-1), Chtimes (creation, access and modification time, 1901..2446) interleaved with content writes through fresh handles and through handles that were opened before later attribute changes (growing the file and overwriting inside it); every path is re-verified live, after ext4.Read of the image, and against `debugfs stat` as a second opinion. FAT12/16/32: Chtimes (1980..2107, odd seconds) and SetHidden/SetSystem/SetReadOnly/SetArchiveBit interleaved with content writes, verified live and after re-open. squashfs also with a farm of 400 symlinks (targets 40..239 bytes) and 1300 files with pairwise different owners and groups (inode and id tables spanning several metadata blocks); squashfs and Rock Ridge ISO: workspace files with modes over all 12 bits, owners over the 16/32-bit range, mtimes across each format's range and symlink targets up to 4095 (ISO: 1000) bytes are finalized and every path is verified through Stat/Sys/Readlink on the re-opened image: attributes unchanged, changing one attribute changes nothing else, kinds never confused. Non-trivial = a case whose attributes were verified; distinct = distinct attribute assignment",
 		Assumptions: []string{"times are compared at each format's resolution (FAT 2 s)", "the sandbox runs as root, so arbitrary owners can be put on workspace files"},
 		MinSigs:     map[string]int{"quick": 12, "thorough": 300},
-		NeedMarks:   []string{"format ext4", "content write through a handle opened before an attribute change", "format fat12", "format fat32", "format squashfs", "format iso-rr"},
+		NeedMarks:   []string{"format ext4", "content write through a handle opened before an attribute change", "squashfs symlink and owner farm", "format fat12", "format fat32", "format squashfs", "format iso-rr"},
 		CPUSec:      600,
 		Cases: func(seed int64, tier string) []core.Case {
 			r := gen.New(seed ^ 0xC19)
@@ -726,6 +745,9 @@ func init() {
 			for rep := 0; rep < reps; rep++ {
 				for _, f := range []string{"ext4", "fat12", "fat16", "fat32", "squashfs", "iso-rr"} {
 					cs = append(cs, core.MkCase(fmt.Sprintf("%s-%d", f, rep), "attrs-"+f, r.Int63(), c19Case{FS: f, N: n}))
+				}
+				if rep == 0 || rep%20 == 19 {
+					cs = append(cs, core.MkCase(fmt.Sprintf("squashfs-farm-%d", rep), "attrs-squashfs", r.Int63(), c19Case{FS: "squashfs", N: 10, Farm: true}))
 				}
 			}
 			return cs
